@@ -319,3 +319,70 @@ func (p *Program) returnsNonNil(fn *ssa.Function, i int, depth int) bool {
 	}
 	return found
 }
+
+// onlyWrittenInInit: every store whose address derives from the global sits in an init function.
+func (p *Program) onlyWrittenInInit(g *ssa.Global) bool {
+	p.immutableArrayInit(g) // builds the use index
+	p.mu.Lock()
+	uses := p.globalUses[g]
+	p.mu.Unlock()
+	var check func(v ssa.Value, depth int) bool
+	check = func(v ssa.Value, depth int) bool {
+		refs := v.Referrers()
+		if refs == nil {
+			return true
+		}
+		for _, r := range *refs {
+			inInit := strings.HasPrefix(r.Parent().Name(), "init")
+			switch x := r.(type) {
+			case *ssa.Store:
+				if x.Addr == v && !inInit {
+					return false
+				}
+				if x.Val == v {
+					return false // address escapes
+				}
+			case *ssa.IndexAddr, *ssa.FieldAddr:
+				if depth < 4 && !check(x.(ssa.Value), depth+1) {
+					return false
+				}
+			case *ssa.UnOp, *ssa.DebugRef:
+			case *ssa.Slice:
+				if !inInit {
+					return false
+				}
+			default:
+				if !inInit {
+					return false
+				}
+			}
+		}
+		return true
+	}
+	for _, ins := range uses {
+		inInit := strings.HasPrefix(ins.Parent().Name(), "init")
+		switch x := ins.(type) {
+		case *ssa.Store:
+			if x.Addr == ssa.Value(g) && !inInit {
+				return false
+			}
+			if x.Val == ssa.Value(g) {
+				return false
+			}
+		case *ssa.IndexAddr:
+			if !check(x, 0) {
+				return false
+			}
+		case *ssa.FieldAddr:
+			if !check(x, 0) {
+				return false
+			}
+		case *ssa.UnOp, *ssa.DebugRef:
+		default:
+			if !inInit {
+				return false
+			}
+		}
+	}
+	return true
+}
